@@ -20,7 +20,9 @@ RULE = (
     "the constraints) x {maximize, minimize}; plus get_variable_bounds for i, o, p. g2/g3: 2-3-term guarantee lists, dense: "
     "all 10626 4-row systems from the 24 sign patterns of (2,2,1)-type rows over i,o,p (where HiGHS presolve misreports "
     "unbounded problems), p5: 5-variable contracts (one 1/%d slice of these in quick, complete in thorough). Oracle: exact rational LP (z3 Optimize on "
-    "the concrete constraints): infeasible => ValueError, unbounded => None, else |value - optimum| <= 1e-6(1+|optimum|). "
+    "the concrete constraints): infeasible => ValueError, unbounded => None, else |value - optimum| <= 1e-6|optimum| + 1e-9 (relative, "
+    "as stated). disc: contradictions in a component disconnected from the objective; scaled: optima such as 1/300; seq: look-alike "
+    "contracts (equal to 4 significant digits) optimised one after the other in one process. "
     "Non-trivial = feasible constraint set with at least two constraints." % NSLICES
 )
 REQUIRED = ["value", "None", "ValueError", "bounds"]
@@ -48,6 +50,15 @@ def _all():
             pool.append({n: a * b for n, a, b in zip("iop", v, sg)})
     for rows in itertools.combinations(pool, 4):
         yield {"fam": "dense", "a": [], "g": [[r, b] for r, b in zip(rows, (0, 0, -2, 1))]}
+    # contradiction in a component that shares no variable with most objectives; small-magnitude optima with long decimals
+    for g in ([[{"i": -1}, -1], [{"o": 1}, 3]], [[{"i": -1}, -1], [{"o": 1, "p": 1}, 3], [{"p": -1}, 0]], [[{"p": 1}, 0], [{"p": -1}, -1], [{"o": 1}, 2]]):
+        yield {"fam": "disc", "a": [[{"i": 1}, 0]] if "i" in g[0][0] else [], "g": g}
+    for k in (300, 30, 7, 3000):
+        yield {"fam": "scaled", "a": [[{"i": -1}, 0]], "g": [[{"o": k}, 1], [{"o": -k, "i": 7}, 0], [{"p": 3, "o": -1}, 0], [{"p": -1}, 1]]}
+        yield {"fam": "scaled", "a": [], "g": [[{"o": k, "i": 1}, 1], [{"i": -1}, 0], [{"o": -1}, 0], [{"p": 1, "o": -7}, 0], [{"p": -1}, 0]]}
+    for a, b in ((10001, 10002), (1.23412, 1.23444), (100000, 100040)):
+        yield {"fam": "seq", "seq": [{"a": [[{"i": 1}, a]], "g": [[{"o": 1, "i": -1}, 0], [{"p": 1}, 1]]}, {"a": [[{"i": 1}, b]], "g": [[{"o": 1, "i": -1}, 0], [{"p": 1}, 1]]}]}
+        yield {"fam": "seq", "seq": [{"a": [], "g": [[{"o": 1, "i": -b}, 0], [{"i": 1}, 1], [{"p": 1}, 1]]}, {"a": [], "g": [[{"o": 1, "i": -a}, 0], [{"i": 1}, 1], [{"p": 1}, 1]]}]}
     G5 = [t for t in grids.terms(["i", "o", "p"], [-1, 0, 1], [1]) if len(t[0]) >= 2]
     for g in grids.lists_upto(G5, 3, minlen=2):
         yield {"fam": "p5", "a": [[{"i": -1}, 0]], "g": g + [[{"q": 1, "o": -1}, 0], [{"r": -1, "p": 1}, 2]], "five": True}
@@ -57,7 +68,7 @@ def cases(tier, seed):
     sl = seed % NSLICES
     k = 0
     for c in _all():
-        if tier == "thorough" or c["fam"] == "core":
+        if tier == "thorough" or c["fam"] in ("core", "disc", "scaled", "seq"):
             yield c
         else:
             k += 1
@@ -85,13 +96,23 @@ def _check(got, exc, ref, sub):
         return "None", None
     if got is None:
         return "None", {"sub": sub, "what": "optimum is %s but optimize returned None" % val}
-    if abs(F(got) - val) > F(1, 10**6) * (1 + abs(val)):
+    if abs(F(got) - val) > F(1, 10**6) * abs(val) + F(1, 10**9):
         return "value", {"sub": sub, "what": "optimize returned %r, exact optimum %s" % (got, val)}
     return "value", None
 
 
 def run_case(case):
     from pacti.contracts import PolyhedralIoContract
+
+    if case["fam"] == "seq":
+        out = []
+        for k, c in enumerate(case["seq"]):
+            for r in run_case({"fam": "core", "a": c["a"], "g": c["g"]}):
+                viol = r[3]
+                if viol is not None:
+                    viol = dict(viol, sub={"seq": k, "inner": viol["sub"]}, what="contract %d of a sequence of look-alike contracts: %s" % (k, viol["what"]))
+                out.append((r[0], r[1], r[2], viol))
+        return out
 
     outs = ["o", "p"] + (["q", "r"] if case.get("five") else [])
     c = PolyhedralIoContract(plist(case["a"]), plist(case["g"]), pvars(["i"]), pvars(outs), simplify=False)
